@@ -50,7 +50,7 @@ def main(argv=None):
 	prop, tier, seed = args['prop'], args['tier'], args['seed']
 	root = engine.scratch_root()
 	out = open(args['out'], 'w')
-	per_run_timeout = args.get('run_timeout', 120)
+	per_run_timeout = args.get('run_timeout', 300)
 	sample_runs = set(args.get('sample_runs', []))
 	agg_keys, agg_states = set(), set()
 	if hasattr(mod, 'worker_init'):
